@@ -10,8 +10,15 @@
 //! trusted: R15 (deep slice): create_payment_onion_internal: the construction of the stripped RecipientOnionFields for a trampoline entry point and the condition of the refusal "Cannot pass payment_metadata to a blinded recipient" (first test under `if let Some(blinded_tail) = &path.blinded_tail`), verbatim as a function of the caller's fields; struct RecipientOnionFields is extracted (PaymentSecret is a 32-byte skeleton); building the trampoline and outer onions after the gate is dropped and not claimed here
 //! assume: every hop's fee_msat <= 21e17 (the total supply in msat): without it `cur_value_msat += hop.fee_msat()` can overflow u64 before the limit test (observation O5 in DESIGN)
 //! assume: the contract is for a path without blinded or trampoline tail (blinded_tail is None) whose final hop carries a non-zero amount; the other arms are kept in the verified text but unreachable under this precondition and not claimed
+//! trusted: assume_specification for core::cmp::max / core::cmp::min (std definitions): present in every unit so that a change that introduces them is verified instead of being rejected by the tool
 use vstd::prelude::*;
 verus! {
+use vstd::std_specs::cmp::*;
+use core::cmp;
+pub assume_specification<T: core::cmp::Ord>[core::cmp::max::<T>](a: T, b: T) -> (r: T)
+    ensures T::obeys_cmp_spec() ==> r == (if b.cmp_spec(&a) == core::cmp::Ordering::Less { a } else { b });
+pub assume_specification<T: core::cmp::Ord>[core::cmp::min::<T>](a: T, b: T) -> (r: T)
+    ensures T::obeys_cmp_spec() ==> r == (if b.cmp_spec(&a) == core::cmp::Ordering::Less { b } else { a });
 #[derive(Clone, Copy)] pub struct PublicKey(pub [u8; 33]);
 #[derive(Clone, Copy)] pub struct PaymentPreimage(pub [u8; 32]);
 pub struct InvoiceRequest {}
